@@ -18,14 +18,20 @@ NOT proved (a theorem cannot exhibit a Go panic): panic-freedom of the Go code a
 go-eth2-client decoders on malformed input. That clause is EXPLORED by the harness
 (`harness/cmd/drive-codec`, evidence keys `explored_*`), see `vlib/props_C14.py`.
 
-Full statement that the code AS IT IS violates (kept visible):
-   ∀ inner codec with `dec (enc x) = ok x`, ∀ v : VersionedAttestation,
-       unmarshalAtt (marshalAtt v) = ok v                                  -- FALSE
- It fails for a value WITHOUT validator index whose inner bytes 4..8 read 20 (an attestation for
- a slot ≡ 20 mod 2^32): `attestation_roundtrip_noindex_fails` (negation on a witness),
- `attestation_roundtrip_noindex_partial` (with the needed hypothesis); the two wire forms even
- overlap: `attestation_marshal_ambiguous`. Reproduced on the real code by the harness
- (sig `codec:att_noidx_slot20_undecodable`), fix proposal `fixes/C14-att-noidx-fallback.diff`.
+History (defect ids of this property: D-13 peer JSON-null panic, D-14 decided-proposal null panic,
+D-15 attestation slot 20):
+ D-15 — before repo commit 2a43df9 the statement
+   ∀ inner codec with `dec (enc x) = ok x`, ∀ v : VersionedAttestation, unmarshalAtt (marshalAtt v) = ok v
+ was FALSE for a value WITHOUT validator index whose inner bytes 4..8 read 20 (an attestation for a
+ slot ≡ 20 mod 2^32): the compatibility fallback was taken only on `ssz.ErrOffset`. The pre-fix
+ decoder is kept in the model as `unmarshalAttPrefix`; `prefix_attestation_roundtrip_noindex_fails`
+ (negation on a witness) and `prefix_attestation_roundtrip_noindex_partial` remain proved about it.
+ For the code as it is now (fallback on any failure) `attestation_roundtrip_noindex` is proved for
+ every slot; its one hypothesis concerns the inner codec only and is intrinsic to the wire format,
+ whose two forms overlap (`attestation_marshal_ambiguous`, unchanged by the fix). The harness monitor
+ `codec:att_noidx_slot20_undecodable` and the regression ops in corpus/C14 keep watching it.
+ D-13 / D-14 — fixed by repo commit d1a44e9 (structural validation inside the recover scopes of
+ ParSignedDataFromProto / UnsignedDataSetFromProto); panic-freedom remains EXPLORED, not proved.
 -/
 import CharonV.Proofs.SszWrap
 
@@ -77,7 +83,7 @@ theorem source_layout :
 
 /-- Normalised statement text of the functions that the model mirrors by hand and that
 T-sszwrap does not interpret: the per-type dispatch (which wrapper a type uses, the
-`VersionedAttestation` fallback on `errors.Is(err, ssz.ErrOffset)`), `AttestationData`,
+`VersionedAttestation` fallback to the index-less form on any failure), `AttestationData`,
 `attesterDutySSZ`, `marshal` / `unmarshal` and the four set encoders. Any edit of these functions
 makes this theorem fail (the obligation is then reported as no longer shown). -/
 theorem source_text :
@@ -105,7 +111,7 @@ theorem source_text :
        "return marshalSSZVersionedValidatorIdxTo(dst, version, valIdx, a.sszValFromVersion)"] ∧
     CharonV.Generated.SszWrap.VersionedAttestation_UnmarshalSSZ =
       ["version, valIdx, err := unmarshalSSZVersionedValidatorIdx(b, a.sszValFromVersion)",
-       "if err != nil { if !errors.Is(err, ssz.ErrOffset) { return errors.Wrap(err, \"unmarshal VersionedAttestation\") } version, err = unmarshalSSZVersioned(b, a.sszValFromVersion) if err != nil { return errors.Wrap(err, \"unmarshal VersionedAttestation without validator index\") } }",
+       "if err != nil { var errNoIdx error version, errNoIdx = unmarshalSSZVersioned(b, a.sszValFromVersion) if errNoIdx != nil { if !errors.Is(err, ssz.ErrOffset) { return errors.Wrap(err, \"unmarshal VersionedAttestation\") } return errors.Wrap(errNoIdx, \"unmarshal VersionedAttestation without validator index\") } valIdx = nil }",
        "a.Version = version.ToETH2()", "a.ValidatorIndex = valIdx", "return nil"] ∧
     CharonV.Generated.SszWrap.VersionedSignedAggregateAndProof_MarshalSSZTo =
       ["version, err := eth2util.DataVersionFromETH2(ap.Version)",
@@ -177,7 +183,7 @@ theorem source_text :
       ["defer func() { if r := recover(); r != nil { oerr = recoverPanicErr(r) } }()",
        "if set == nil || len(set.GetSet()) == 0 { return nil, errors.New(\"invalid unsigned data set fields\", z.Any(\"set\", set)) }",
        "resp := make(UnsignedDataSet)",
-       "for pubkey, data := range set.GetSet() { var err error resp[PubKey(pubkey)], err = unmarshalUnsignedData(typ, data) if err != nil { return nil, err } }",
+       "for pubkey, data := range set.GetSet() { var err error resp[PubKey(pubkey)], err = unmarshalUnsignedData(typ, data) if err != nil { return nil, err } if _, err = resp[PubKey(pubkey)].Clone(); err != nil { return nil, errors.Wrap(err, \"incomplete unsigned data\") } }",
        "return resp, nil"] := by
   refine ⟨rfl, rfl, rfl, rfl, rfl, rfl, rfl, rfl, rfl, rfl, rfl, rfl, rfl, rfl, rfl, rfl, rfl, rfl, rfl, rfl, rfl⟩
 
@@ -288,21 +294,38 @@ theorem validx_marshal_injective (c : Codec α) (hinj : ∀ v x y, c.enc v x = c
 theorem attestation_roundtrip_with_index (c : Codec α) (h : ∀ v x, c.dec v (c.enc v x) = .ok x)
     (ver : Ver) (i : Nat) (val : α) (hi : i < 2 ^ 64) :
     unmarshalAtt c (marshalAtt c ⟨ver, some i, val⟩) = .ok ⟨ver, some i, val⟩ :=
-  unmarshalAtt_marshal_idx c h ver i val hi
+  unmarshalAtt_marshal_idx c h ver i val hi false
 
-/-- `_partial`: needs the hypothesis `hne` (see header comment). -/
-theorem attestation_roundtrip_noindex_partial (c : Codec α) (h : ∀ v x, c.dec v (c.enc v x) = .ok x)
+/-- The full statement for the code as it is now (D-15 fixed): every index-less attestation,
+whatever its slot. `hshift` is about the inner codec only (see `unmarshalAtt_marshal_noidx`): when
+inner bytes 4..8 read 20 the inner decoder does not accept the object shifted by 8 bytes. -/
+theorem attestation_roundtrip_noindex (c : Codec α) (h : ∀ v x, c.dec v (c.enc v x) = .ok x)
+    (ver : Ver) (val : α)
+    (hshift : leVal (slice (c.enc ver val) 4 8) = 20 → ∃ e, c.dec ver ((c.enc ver val).drop 8) = .error e) :
+    unmarshalAtt c (marshalAtt c ⟨ver, none, val⟩) = .ok ⟨ver, none, val⟩ :=
+  unmarshalAtt_marshal_noidx c h ver val hshift
+
+/-- in particular no hypothesis at all is needed when bytes 4..8 do not read 20 -/
+theorem attestation_roundtrip_noindex_other_slots (c : Codec α) (h : ∀ v x, c.dec v (c.enc v x) = .ok x)
+    (ver : Ver) (val : α) (hne : leVal (slice (c.enc ver val) 4 8) ≠ 20) :
+    unmarshalAtt c (marshalAtt c ⟨ver, none, val⟩) = .ok ⟨ver, none, val⟩ :=
+  unmarshalAtt_marshal_noidx c h ver val (fun h20 => absurd h20 hne)
+
+/-- PRE-FIX decoder (before 2a43df9): round trip only under `hne`. -/
+theorem prefix_attestation_roundtrip_noindex_partial (c : Codec α) (h : ∀ v x, c.dec v (c.enc v x) = .ok x)
     (ver : Ver) (val : α) (h8 : 8 ≤ (c.enc ver val).length)
     (hne : leVal (slice (c.enc ver val) 4 8) ≠ 20) :
-    unmarshalAtt c (marshalAtt c ⟨ver, none, val⟩) = .ok ⟨ver, none, val⟩ :=
-  unmarshalAtt_marshal_noidx_partial c h ver val h8 hne
+    unmarshalAttPrefix c (marshalAtt c ⟨ver, none, val⟩) = .ok ⟨ver, none, val⟩ :=
+  unmarshalAtt_marshal_noidx_partial c h ver val h8 hne true
 
-/-- negation of the full statement on a witness: perfectly invertible inner codec, rejected. -/
-theorem attestation_roundtrip_noindex_fails :
+/-- PRE-FIX decoder: negation of the full statement on a witness (perfectly invertible inner
+codec, rejected) — and the same witness is decoded by the code as it is now. -/
+theorem prefix_attestation_roundtrip_noindex_fails :
     (∀ v x, slot20Codec.dec v (slot20Codec.enc v x) = .ok x) ∧
-    unmarshalAtt slot20Codec (marshalAtt slot20Codec ⟨.deneb, none, ()⟩) ≠ .ok ⟨.deneb, none, ()⟩ := by
-  refine ⟨slot20Codec_roundtrip, ?_⟩
-  rw [unmarshalAtt_marshal_noidx_fails]
+    unmarshalAttPrefix slot20Codec (marshalAtt slot20Codec ⟨.deneb, none, ()⟩) ≠ .ok ⟨.deneb, none, ()⟩ ∧
+    unmarshalAtt slot20Codec (marshalAtt slot20Codec ⟨.deneb, none, ()⟩) = .ok ⟨.deneb, none, ()⟩ := by
+  refine ⟨slot20Codec_roundtrip, ?_, unmarshalAtt_marshal_noidx_witness⟩
+  rw [unmarshalAttPrefix_marshal_noidx_fails]
   intro h
   cases h
 
@@ -440,7 +463,9 @@ example : unmarshalValIdx idCodec ([5, 0, 0, 0, 0, 0, 0, 0] ++ le 8 1 ++ [21, 0,
   validx_rejects_bad_offset _ _ (by decide) (by decide) (by decide)
 example : unmarshalAtt idCodec (marshalAtt idCodec ⟨.deneb, none, [0xE4, 0, 0, 0, 19, 0, 0, 0]⟩)
     = .ok ⟨.deneb, none, [0xE4, 0, 0, 0, 19, 0, 0, 0]⟩ :=
-  attestation_roundtrip_noindex_partial idCodec (fun _ _ => rfl) _ _ (by decide) (by decide)
+  attestation_roundtrip_noindex_other_slots idCodec (fun _ _ => rfl) _ _ (by decide)
+example : unmarshalAtt slot20Codec (marshalAtt slot20Codec ⟨.deneb, none, ()⟩) = .ok ⟨.deneb, none, ()⟩ :=
+  attestation_roundtrip_noindex slot20Codec slot20Codec_roundtrip _ _ (fun _ => ⟨.other, rfl⟩)
 
 def idD : CodecD Bytes := ⟨fun b => b, fun b => .ok b⟩
 def duty0 : Duty := ⟨List.replicate 48 7, 1, 2, 3, 4, 5, 6⟩
